@@ -1,3 +1,4 @@
 import FlVerif.Drv.All
 import FlVerif.Props.C04
 import FlVerif.Props.C05
+import FlVerif.Props.C17
